@@ -1,7 +1,7 @@
 (* RefConfluence.v — the denotation of RefDen.v describes EVERY schedule, up to interleaving.
    [sync_den] covers the one schedule in which every service completes from inside its own
    notification.  Here: for an oracle that does not depend on the query counter
-   ([corc rho := fun _ v => rho v]), for ANY choice of immediate completions [imm] and ANY
+   ([counter_free orc], e.g. [corc rho := fun _ v => rho v]), for ANY choice of immediate completions [imm] and ANY
    script of API calls (completions in any order, junk, duplicates, registrations, observers),
    the events issued over the whole history are a permutation of
        production task started, den_block of its body, production task finished.
@@ -14,6 +14,12 @@ From Coq Require Import Lia Permutation.
 
 (* the oracle that answers from one fixed valuation, whatever the query counter *)
 Definition corc (rho : name -> option value) : oracle := fun _ v => rho v.
+
+(* more generally: an oracle whose answers do not depend on the query counter *)
+Definition counter_free (orc : oracle) : Prop := forall q q' v, orc q v = orc q' v.
+
+Lemma corc_counter_free : forall rho, counter_free (corc rho).
+Proof. intros rho q q' v. reflexivity. Qed.
 
 (* ================================================================================== *)
 (* 0. generalities: fuel monotonicity of the denotation, permutation bookkeeping       *)
@@ -232,8 +238,8 @@ Qed.
 (* 1. the constant oracle: guards and limits evaluate the same whenever evaluated      *)
 (* ================================================================================== *)
 Section Const.
-  Variable rho : name -> option value.
-  Notation orc := (corc rho).
+  Variable orc : oracle.
+  Variable orc_const : counter_free orc.
 
   Lemma eval_const : forall ops e q w q',
       eval ops orc e q = Ok (w, q') -> forall q2, exists q2', eval ops orc e q2 = Ok (w, q2').
@@ -242,7 +248,7 @@ Section Const.
     - inv H. eexists; reflexivity.
     - inv H. eexists; reflexivity.
     - inv H. eexists; reflexivity.
-    - unfold corc in *. destruct (rho v) as [x|]; [|discriminate].
+    - rewrite (orc_const q2 q). destruct (orc q v) as [x|]; [|discriminate].
       destruct (resolve x p); cbn [rbind] in *; try discriminate. inv H. eexists; reflexivity.
     - destruct (eval ops orc e q) as [[v1 k1]| | |] eqn:E1; cbn [rbind] in H; try discriminate.
       destruct (IH _ _ _ E1 q2) as (k2 & E2). rewrite E2. cbn [rbind].
@@ -291,7 +297,7 @@ Section Const.
     intros lim ctx g n g' H. destruct (den_limit_ok _ _ _ _ _ _ H) as (evs & L & D).
     exists evs. split; [exact L|]. intro q. destruct lim as [k|v p]; cbn [den_limit] in *.
     - injection D as D1 D2 D3. rewrite <- D1, <- D2. eexists; reflexivity.
-    - unfold corc in *. destruct (rho v) as [x|]; [|discriminate].
+    - rewrite (orc_const q (g_q g)). destruct (orc (g_q g) v) as [x|]; [|discriminate].
       destruct (resolve x p) as [[qq| | |]| | |]; try discriminate.
       destruct (Pos.eqb (Qden qq) 1); [|discriminate].
       injection D as D1 D2 D3. rewrite <- D1, <- D2. eexists; reflexivity.
@@ -964,3 +970,380 @@ Section Const.
   Qed.
   End Run.
 End Const.
+
+(* ================================================================================== *)
+(* 7. the theorems                                                                    *)
+(* ================================================================================== *)
+
+(* (2) the invariant, with the denotation and the residual both given *)
+Corollary start_stmt_conf : forall orc imm f ctx ie s g st g',
+    counter_free orc ->
+    start_stmt orc imm f ctx ie s g = Ok (st, g') ->
+    exists E, LogD E g g' /\
+              forall D R, DS orc ie s D -> RS orc ie s st R -> Permutation D (E ++ R).
+Proof.
+  intros orc imm f ctx ie s g st g' Hc H.
+  destruct (proj1 (start_conf orc Hc imm f) _ _ _ _ _ _ H) as (E & L & K).
+  exists E. split; [exact L|]. intros D R HD HR. destruct (K _ HR) as (D' & HD' & HP).
+  rewrite (DS_fun _ _ _ _ _ HD HD'). exact HP.
+Qed.
+
+(* ... and with the denotation computed by [den_stmt] at any sufficient fuel *)
+Corollary start_stmt_den : forall orc imm f ctx ie s g st g' F D q' R,
+    counter_free orc ->
+    start_stmt orc imm f ctx ie s g = Ok (st, g') ->
+    den_stmt orc F ie s (g_q g) = Ok (D, q') ->
+    RS orc ie s st R ->
+    exists E, LogD E g g' /\ Permutation D (E ++ R).
+Proof.
+  intros orc imm f ctx ie s g st g' F D q' R Hc H HD HR.
+  destruct (proj1 (start_conf orc Hc imm f) _ _ _ _ _ _ H) as (E & L & K).
+  exists E. split; [exact L|]. destruct (K _ HR) as (D' & (F' & HD') & HP).
+  destruct (HD' (g_q g)) as (q2 & E2).
+  pose proof (den_stmt_det _ _ _ _ _ _ _ _ HD E2) as X. inv X. exact HP.
+Qed.
+
+Corollary deliver_stmt_conf : forall orc imm f ctx ie s st id g st' g',
+    counter_free orc ->
+    deliver orc imm f ctx ie s st id g = Ok (Some st', g') -> wf s st ->
+    exists E, LogD E g g' /\
+              forall R', RS orc ie s st' R' -> exists R, RS orc ie s st R /\ Permutation R (E ++ R').
+Proof. intros orc imm f ctx ie s st id g st' g' Hc. exact (proj1 (deliver_conf orc Hc imm f) ctx ie s st id g st' g'). Qed.
+
+(* (3) the whole history of an order that completed *)
+Theorem confluence : forall orc imm f body cs tr,
+    counter_free orc ->
+    run_script orc imm f body sched0 cs = Ok tr ->
+    (exists r, In r tr /\ cr_final r = true) ->
+    exists F mid q',
+      den_block orc F [] body 0 0 = Ok (mid, q') /\
+      Permutation (trace_devs tr)
+                  (DN TS production_task root_site [] :: mid ++ [DN TF production_task root_site []]).
+Proof.
+  intros orc imm f body cs tr Hc H Hf.
+  destruct (script_conf orc Hc imm body f cs sched0 tr (PInv_sched0 body) lst_all_default H (or_intror Hf))
+    as (R & HR & HP).
+  cbn [sc_root sched0 RRoot] in HR. destruct HR as (mid & (F & HD) & ->). destruct (HD 0) as (q' & E).
+  exists F, mid, q'. split; [exact E|]. apply Permutation_sym. exact HP.
+Qed.
+
+Theorem confluence_any_fuel : forall orc imm f body cs tr F mid q',
+    counter_free orc ->
+    run_script orc imm f body sched0 cs = Ok tr ->
+    (exists r, In r tr /\ cr_final r = true) ->
+    den_block orc F [] body 0 0 = Ok (mid, q') ->
+    Permutation (trace_devs tr)
+                (DN TS production_task root_site [] :: mid ++ [DN TF production_task root_site []]).
+Proof.
+  intros orc imm f body cs tr F mid q' Hc H Hf HD.
+  destruct (confluence _ _ _ _ _ _ Hc H Hf) as (F0 & mid0 & q0 & HD0 & HP).
+  pose proof (den_block_det _ _ _ _ _ _ _ _ _ HD HD0) as X. inv X. exact HP.
+Qed.
+
+Lemma last_In : forall A (l : list A) d, l <> [] -> In (last l d) l.
+Proof.
+  intros A l d Hn. rewrite (app_removelast_last d Hn) at 2. apply in_or_app. right. left. reflexivity.
+Qed.
+
+Corollary confluence_last : forall orc imm f body cs tr r0,
+    counter_free orc ->
+    run_script orc imm f body sched0 cs = Ok tr ->
+    tr <> [] -> cr_final (last tr r0) = true ->
+    exists F mid q',
+      den_block orc F [] body 0 0 = Ok (mid, q') /\
+      Permutation (trace_devs tr)
+                  (DN TS production_task root_site [] :: mid ++ [DN TF production_task root_site []]).
+Proof.
+  intros orc imm f body cs tr r0 Hc H Hn Hf. eapply confluence; [exact Hc|exact H|].
+  exists (last tr r0). split; [apply last_In; exact Hn|exact Hf].
+Qed.
+
+(* counting: every event occurs in the history exactly as often as in the denotation *)
+Lemma perm_filter_length : forall A (p : A -> bool) l1 l2,
+    Permutation l1 l2 -> List.length (filter p l1) = List.length (filter p l2).
+Proof.
+  intros A p l1 l2 H. induction H as [|x l1 l2 H IH|x y l|l1 l2 l3 H1 IH1 H2 IH2]; cbn [filter].
+  - reflexivity.
+  - destruct (p x); cbn [List.length]; congruence.
+  - destruct (p x), (p y); reflexivity.
+  - congruence.
+Qed.
+
+Corollary confluence_count : forall orc imm f body cs tr F mid q' (p : dev -> bool),
+    counter_free orc ->
+    run_script orc imm f body sched0 cs = Ok tr ->
+    (exists r, In r tr /\ cr_final r = true) ->
+    den_block orc F [] body 0 0 = Ok (mid, q') ->
+    List.length (filter p (trace_devs tr)) =
+    List.length (filter p (DN TS production_task root_site [] :: mid ++ [DN TF production_task root_site []])).
+Proof. intros. apply perm_filter_length. eapply confluence_any_fuel; eassumption. Qed.
+
+Corollary confluence_count_occ : forall (dec : forall a b : dev, {a = b} + {a <> b})
+                                        orc imm f body cs tr F mid q' (e : dev),
+    counter_free orc ->
+    run_script orc imm f body sched0 cs = Ok tr ->
+    (exists r, In r tr /\ cr_final r = true) ->
+    den_block orc F [] body 0 0 = Ok (mid, q') ->
+    count_occ dec (trace_devs tr) e =
+    count_occ dec (DN TS production_task root_site [] :: mid ++ [DN TF production_task root_site []]) e.
+Proof. intros. apply Permutation_count_occ. eapply confluence_any_fuel; eassumption. Qed.
+
+(* ================================================================================== *)
+(* 8. C05: a counting loop with a literal limit, under every schedule                  *)
+(* ================================================================================== *)
+
+(* the denotation of a counting loop with literal limit N, entered at iteration k, is the
+   concatenation of the body's denotations for the indices k .. N-1 (any oracle) *)
+Lemma den_count_literal : forall orc F ie v N b k q D q',
+    den_loop orc F ie (XCount v (LimInt N) b) k q = Ok (D, q') ->
+    exists Ds, D = concat Ds /\ List.length Ds = N - k /\
+               forall j, j < N - k ->
+                         exists qa qb, den_block orc F ((v, k + j) :: ie) b 0 qa = Ok (nth j Ds [], qb).
+Proof.
+  intros orc F. induction F as [|F IH]; intros ie v N b k q D q' H; [discriminate|].
+  rewrite den_loop_S in H. cbn [den_limit rbind] in H.
+  destruct (Z.of_nat k <? Z.of_nat N)%Z eqn:Hk.
+  - apply Z.ltb_lt in Hk.
+    destruct (den_block orc F ((v, k) :: ie) b 0 q) as [[e1 q2]| | |] eqn:E1; cbn [rbind] in H; try discriminate.
+    destruct (den_loop orc F ie (XCount v (LimInt N) b) (S k) q2) as [[e2 q3]| | |] eqn:E2; cbn [rbind] in H; try discriminate.
+    inv H. destruct (IH _ _ _ _ _ _ _ _ E2) as (Ds & -> & Hlen & Hj).
+    exists (e1 :: Ds). split; [reflexivity|]. split; [cbn [List.length]; lia|].
+    intros j Hlt. destruct j as [|j].
+    + rewrite Nat.add_0_r. exists q, q2. cbn [nth]. apply (proj1 (proj2 (den_mono orc F))). exact E1.
+    + destruct (Hj j) as (qa & qb & E); [lia|]. exists qa, qb. cbn [nth].
+      replace (k + S j) with (S k + j) by lia. apply (proj1 (proj2 (den_mono orc F))). exact E.
+  - apply Z.ltb_ge in Hk. inv H. exists []. split; [reflexivity|]. split; [cbn [List.length]; lia|].
+    intros j Hlt. lia.
+Qed.
+
+(* an order that consists of one counting loop with literal limit N: whatever the completion
+   order, the history is a permutation of "production task started, the body's denotation for
+   the indices 0, 1, ..., N-1, production task finished" *)
+Theorem C05_literal_loop_all_schedules : forall orc imm f cs tr v N b,
+    counter_free orc ->
+    run_script orc imm f [XCount v (LimInt N) b] sched0 cs = Ok tr ->
+    (exists r, In r tr /\ cr_final r = true) ->
+    exists Ds, List.length Ds = N /\
+               (forall k, k < N -> exists Fk qa qb,
+                     den_block orc Fk [(v, k)] b 0 qa = Ok (nth k Ds [], qb)) /\
+               Permutation (trace_devs tr)
+                           (DN TS production_task root_site [] :: concat Ds ++ [DN TF production_task root_site []]).
+Proof.
+  intros orc imm f cs tr v N b Hc H Hf.
+  destruct (confluence _ _ _ _ _ _ Hc H Hf) as (F & mid & q' & HD & HP).
+  destruct F as [|F]; [discriminate|]. rewrite den_block_S in HD. cbn [nth_error] in HD.
+  destruct (den_stmt orc F [] (XCount v (LimInt N) b) 0) as [[e1 q1]| | |] eqn:E1; cbn [rbind] in HD; try discriminate.
+  destruct (den_block orc F [] [XCount v (LimInt N) b] 1 q1) as [[e2 q2]| | |] eqn:E2; cbn [rbind] in HD; try discriminate.
+  inv HD.
+  destruct F as [|F]; [discriminate|]. rewrite den_block_S in E2. cbn [nth_error] in E2. inv E2.
+  rewrite den_stmt_S in E1.
+  destruct (den_count_literal _ _ _ _ _ _ _ _ _ _ E1) as (Ds & -> & Hlen & Hj).
+  exists Ds. split; [lia|]. split.
+  - intros k Hk. destruct (Hj k) as (qa & qb & E); [lia|]. exists F, qa, qb. exact E.
+  - rewrite app_nil_r in HP. exact HP.
+Qed.
+
+(* the instance "one service in the loop": it is started exactly N times *)
+Definition is_start_of (n : name) (a : site) (e : dev) : bool :=
+  match e with
+  | DN SS n' a' _ => Nat.eqb n' n && site_eqb a' a
+  | _ => false
+  end.
+
+Lemma site_eqb_refl : forall a, site_eqb a a = true.
+Proof.
+  intros [t p]. unfold site_eqb. cbn. rewrite Nat.eqb_refl. cbn.
+  induction p as [|x p IH]; cbn; [reflexivity|]. rewrite Nat.eqb_refl. exact IH.
+Qed.
+
+Theorem C05_service_in_literal_loop : forall orc imm f cs tr v N n a ins,
+    counter_free orc ->
+    run_script orc imm f [XCount v (LimInt N) [XService n a ins]] sched0 cs = Ok tr ->
+    (exists r, In r tr /\ cr_final r = true) ->
+    List.length (filter (is_start_of n a) (trace_devs tr)) = N.
+Proof.
+  intros orc imm f cs tr v N n a ins Hc H Hf.
+  destruct (C05_literal_loop_all_schedules _ _ _ _ _ _ _ _ Hc H Hf) as (Ds & Hlen & Hk & HP).
+  rewrite (perm_filter_length _ (is_start_of n a) _ _ HP).
+  cbn [filter is_start_of]. rewrite filter_app. cbn [filter is_start_of]. rewrite app_nil_r.
+  assert (G : forall (L : list (list dev)) m,
+             (forall k, k < List.length L ->
+                        exists Fk qa qb, den_block orc Fk [(v, m + k)] [XService n a ins] 0 qa = Ok (nth k L [], qb)) ->
+             List.length (filter (is_start_of n a) (concat L)) = List.length L).
+  { induction L as [|D L IH]; intros m HL; [reflexivity|].
+    cbn [concat]. rewrite filter_app, app_length. cbn [List.length]. rewrite (IH (S m)).
+    - destruct (HL 0) as (Fk & qa & qb & E); [cbn; lia|]. cbn [nth] in E.
+      destruct Fk as [|Fk]; [discriminate|]. rewrite den_block_S in E. cbn [nth_error] in E.
+      destruct Fk as [|Fk]; [discriminate|]. rewrite den_stmt_S in E. cbn [rbind] in E.
+      destruct (den_block orc (S Fk) [(v, m + 0)] [XService n a ins] 1 qa) as [[e2 q2]| | |] eqn:E2;
+        cbn [rbind] in E; try discriminate.
+      rewrite den_block_S in E2. cbn [nth_error] in E2. inv E2. inv E.
+      cbn [app filter is_start_of]. rewrite Nat.eqb_refl, site_eqb_refl. reflexivity.
+    - intros k Hlt. destruct (HL (S k)) as (Fk & qa & qb & E); [cbn; lia|].
+      exists Fk, qa, qb. cbn [nth] in E. replace (S m + k) with (m + S k) by lia. exact E. }
+  rewrite (G Ds 0); [exact Hlen|]. intros k Hlt. rewrite Hlen in Hlt. exact (Hk k Hlt).
+Qed.
+
+(* ================================================================================== *)
+(* 9. non-vacuity: a Parallel of two tasks followed by a counting loop whose limit is  *)
+(*    read from a variable; completions out of source order, junk, duplicates, a        *)
+(*    second start(), one service completed from inside its own notification           *)
+(* ================================================================================== *)
+Module ConfluenceExample.
+  Definition sA : site := {| st_task := production_task; st_path := [0; 0] |}.
+  Definition sB : site := {| st_task := production_task; st_path := [0; 1] |}.
+  Definition s1 : site := {| st_task := 1; st_path := [0] |}.
+  Definition s2 : site := {| st_task := 1; st_path := [1] |}.
+  Definition s3 : site := {| st_task := 2; st_path := [0] |}.
+  Definition s4 : site := {| st_task := production_task; st_path := [1; 0] |}.
+  Definition body : list xstmt :=
+    [ XParallel [ XCall 1 sA [] [XService 10 s1 []; XService 11 s2 []];
+                  XCall 2 sB [] [XService 12 s3 []] ];
+      XCount 5 (LimPath 7 []) [XService 13 s4 [PPath 8 [PIdxVar 5]]] ].
+  Definition rho : name -> option value :=
+    fun v => if Nat.eqb v 7 then Some (VNum 2) else None.
+  Definition imm : nat -> bool := fun k => Nat.eqb k 3.
+  Definition script : list apicall :=
+    [AStart; AFinish 1; AJunk; AFinish 0; AFinish 1; AStart; AFinish 2; AFinish 7; AFinish 4; AFinish 4].
+End ConfluenceExample.
+
+Example confluence_nonvacuous :
+  exists tr mid q',
+    run_script (corc ConfluenceExample.rho) ConfluenceExample.imm 50 ConfluenceExample.body sched0
+               ConfluenceExample.script = Ok tr
+    /\ (exists r, In r tr /\ cr_final r = true)
+    /\ den_block (corc ConfluenceExample.rho) 50 [] ConfluenceExample.body 0 0 = Ok (mid, q')
+    /\ trace_devs tr <> DN TS production_task root_site [] :: mid ++ [DN TF production_task root_site []]
+    /\ Permutation (trace_devs tr)
+                   (DN TS production_task root_site [] :: mid ++ [DN TF production_task root_site []]).
+Proof.
+  destruct (run_script (corc ConfluenceExample.rho) ConfluenceExample.imm 50 ConfluenceExample.body sched0
+                       ConfluenceExample.script) as [tr| | |] eqn:E1;
+    [|exfalso; vm_compute in E1; discriminate E1 ..].
+  destruct (den_block (corc ConfluenceExample.rho) 50 [] ConfluenceExample.body 0 0) as [[mid q']| | |] eqn:E2;
+    [|exfalso; vm_compute in E2; discriminate E2 ..].
+  exists tr, mid, q'.
+  assert (Hf : exists r, In r tr /\ cr_final r = true).
+  { apply existsb_exists. vm_compute in E1. inv E1. vm_compute. reflexivity. }
+  split; [reflexivity|]. split; [exact Hf|]. split; [reflexivity|]. split.
+  - vm_compute in E1, E2. inv E1. inv E2. vm_compute. intro X. discriminate X.
+  - eapply confluence_any_fuel; [apply corc_counter_free|eassumption..].
+Qed.
+
+(* ================================================================================== *)
+(* 10. the hypothesis on the oracle is needed                                          *)
+(* ================================================================================== *)
+(* With an oracle whose answers depend on the query counter the multiset of events depends
+   on the completion order: two parallel tasks each test the same variable after their
+   first service; the oracle answers true to the first query only.  Whichever task's
+   service is completed first gets the true answer and runs its extra service. *)
+Module NeedsCounterFree.
+  Definition sA : site := {| st_task := production_task; st_path := [0; 0] |}.
+  Definition sB : site := {| st_task := production_task; st_path := [0; 1] |}.
+  Definition s1 : site := {| st_task := 1; st_path := [0] |}.
+  Definition s2 : site := {| st_task := 1; st_path := [1; 0; 0] |}.
+  Definition s3 : site := {| st_task := 2; st_path := [0] |}.
+  Definition s4 : site := {| st_task := 2; st_path := [1; 0; 0] |}.
+  Definition body : list xstmt :=
+    [ XParallel [ XCall 1 sA [] [XService 10 s1 []; XCond (EPath 7 []) [XService 11 s2 []] []];
+                  XCall 2 sB [] [XService 12 s3 []; XCond (EPath 7 []) [XService 13 s4 []] []] ] ].
+  Definition orc : oracle := fun q _ => Some (VBool (Nat.eqb q 0)).
+  Definition never : nat -> bool := fun _ => false.
+  Definition script1 : list apicall := [AStart; AFinish 0; AFinish 1; AFinish 2].
+  Definition script2 : list apicall := [AStart; AFinish 1; AFinish 0; AFinish 2].
+End NeedsCounterFree.
+
+Example confluence_needs_counter_free :
+  exists tr1 tr2,
+    run_script NeedsCounterFree.orc NeedsCounterFree.never 50 NeedsCounterFree.body sched0
+               NeedsCounterFree.script1 = Ok tr1
+    /\ run_script NeedsCounterFree.orc NeedsCounterFree.never 50 NeedsCounterFree.body sched0
+                  NeedsCounterFree.script2 = Ok tr2
+    /\ existsb cr_final tr1 = true /\ existsb cr_final tr2 = true
+    /\ ~ Permutation (trace_devs tr1) (trace_devs tr2).
+Proof.
+  destruct (run_script NeedsCounterFree.orc NeedsCounterFree.never 50 NeedsCounterFree.body sched0
+                       NeedsCounterFree.script1) as [tr1| | |] eqn:E1;
+    [|exfalso; vm_compute in E1; discriminate E1 ..].
+  destruct (run_script NeedsCounterFree.orc NeedsCounterFree.never 50 NeedsCounterFree.body sched0
+                       NeedsCounterFree.script2) as [tr2| | |] eqn:E2;
+    [|exfalso; vm_compute in E2; discriminate E2 ..].
+  exists tr1, tr2. vm_compute in E1, E2. inv E1. inv E2.
+  split; [reflexivity|]. split; [reflexivity|]. split; [vm_compute; reflexivity|].
+  split; [vm_compute; reflexivity|].
+  intro P. apply (perm_filter_length _ (is_start_of 11 NeedsCounterFree.s2)) in P.
+  vm_compute in P. discriminate P.
+Qed.
+
+(* ================================================================================== *)
+(* 11. run cases of the harness: one value for all queries                             *)
+(* ================================================================================== *)
+Lemma orc_of_counter_free : forall vals, List.length vals <= 1 -> counter_free (orc_of vals).
+Proof.
+  intros vals Hl q q' v. unfold orc_of.
+  replace (Nat.min q (List.length vals - 1)) with 0 by lia.
+  replace (Nat.min q' (List.length vals - 1)) with 0 by lia. reflexivity.
+Qed.
+
+Theorem confluence_run_ref : forall (c : runcase) tr,
+    List.length (rc_vals c) <= 1 ->
+    run_ref c = Ok tr ->
+    (exists r, In r tr /\ cr_final r = true) ->
+    exists body F mid q',
+      unfold_program (p_tasks (rc_prog c)) 200 = Ok body /\
+      den_block (orc_of (rc_vals c)) F [] body 0 0 = Ok (mid, q') /\
+      Permutation (trace_devs tr)
+                  (DN TS production_task root_site [] :: mid ++ [DN TF production_task root_site []]).
+Proof.
+  intros c tr Hl H Hf. unfold run_ref in H.
+  destruct (existsb _ (rc_react c)); [discriminate|].
+  destruct (unfold_program (p_tasks (rc_prog c)) 200) as [body| | |]; try discriminate.
+  cbn [rbind] in H.
+  destruct (confluence _ _ _ _ _ _ (orc_of_counter_free _ Hl) H Hf) as (F & mid & q' & HD & HP).
+  exists body, F, mid, q'. split; [reflexivity|]. split; assumption.
+Qed.
+
+(* ================================================================================== *)
+(* 12. decidable equality of erased events, and the count_occ form                     *)
+(* ================================================================================== *)
+Lemma Q_eq_dec : forall a b : Q, {a = b} + {a <> b}.
+Proof. decide equality; [apply Pos.eq_dec|apply Z.eq_dec]. Defined.
+
+Lemma json_eq_dec : forall a b : json, {a = b} + {a <> b}.
+Proof.
+  fix IH 1. intros a b. decide equality.
+  - apply Q_eq_dec.
+  - apply Bool.bool_dec.
+  - apply Nat.eq_dec.
+  - apply list_eq_dec. intros [n1 j1] [n2 j2]. decide equality. apply Nat.eq_dec.
+  - apply list_eq_dec. exact IH.
+Defined.
+
+Lemma pelem_eq_dec : forall a b : pelem, {a = b} + {a <> b}.
+Proof. decide equality; apply Nat.eq_dec. Defined.
+
+Lemma param_eq_dec : forall a b : param, {a = b} + {a <> b}.
+Proof.
+  decide equality; try apply Nat.eq_dec; try apply json_eq_dec.
+  apply list_eq_dec. apply pelem_eq_dec.
+Defined.
+
+Lemma site_eq_dec : forall a b : site, {a = b} + {a <> b}.
+Proof. decide equality; [apply list_eq_dec; apply Nat.eq_dec|apply Nat.eq_dec]. Defined.
+
+Lemma dev_eq_dec : forall a b : dev, {a = b} + {a <> b}.
+Proof.
+  decide equality; try apply Nat.eq_dec.
+  - apply list_eq_dec. apply param_eq_dec.
+  - apply site_eq_dec.
+  - decide equality.
+Defined.
+
+Corollary confluence_count_occ_dev : forall orc imm f body cs tr F mid q' (e : dev),
+    counter_free orc ->
+    run_script orc imm f body sched0 cs = Ok tr ->
+    (exists r, In r tr /\ cr_final r = true) ->
+    den_block orc F [] body 0 0 = Ok (mid, q') ->
+    count_occ dev_eq_dec (trace_devs tr) e =
+    count_occ dev_eq_dec (DN TS production_task root_site [] :: mid ++ [DN TF production_task root_site []]) e.
+Proof. intros. eapply confluence_count_occ; eassumption. Qed.
